@@ -325,6 +325,8 @@ def gen_async(count, seed, first_id=4000, fam="async", with_abort=True, with_sem
                 if rng.random() < 0.3:
                     acts.append(op("abort", v=c))
             if fate in ("join", "abort_join"):
+                if rng.random() < 0.25:
+                    acts.append(op("is_finished", v=c))
                 if rng.random() < 0.35:
                     acts.append(op("try_join", v=c))      # a now_or_never style probe first
                 if owner == 0:
@@ -481,6 +483,12 @@ def gen_family(fam, count, seed, ntasks=(2, 3), nops=(1, 3), first_id=1000):
             state = {"unpark_targets": sorted(set(anc + sibs + [c])), "barrier_reuse": fam == "barrier_reuse"}
             bodies.append(gen_task(rng, alphabet, rng.randint(*nops), env, state))
         tasks = wrap_threads(rng, bodies, parent)
+        if fam == "ident":
+            # half of the threads are spawned through thread::Builder with a name
+            for t_ in tasks:
+                for o_ in t_:
+                    if o_["k"] == "spawn" and rng.random() < 0.5:
+                        o_["k"] = "spawn_named"
         kw = dict(nmutex=objs.get("nmutex", 0), atomics=[0] * objs.get("natom", 0), ncv=objs.get("ncv", 0),
                   nrw=objs.get("nrw", 0), nonce=objs.get("nonce", 0))
         if objs.get("nbar"):
